@@ -71,7 +71,8 @@ Theorem C13_bytes_guard :
 Proof. exact bytes_dec_guard. Qed.
 Print Assumptions C13_bytes_guard.
 
-(** [MakeNode]: [node_guard L n] = height in int8, key/value/hash lengths <= L, legacy
+(** [legacy_guard]: inner legacy nodes have child hashes of exactly 32 bytes.
+    [MakeNode]: [node_guard L n] = height in int8, key/value/hash lengths <= L, legacy
     children exactly 32 bytes, new-child nonces in uint32, leaf <-> value and no children,
     inner <-> two children;
     [node_guard_wf n] = size and versions in int64, outputs byte-valued. *)
@@ -113,6 +114,16 @@ Theorem C13_node_bad_key :
   forall nk buf : bytes, length nk <> 12%nat -> decode_node nk buf = DErr.
 Proof. exact decode_node_bad_key. Qed.
 Print Assumptions C13_node_bad_key.
+
+(** what [MakeNode] returns can be re-encoded ([writeBytes]) and sized ([encodedSize])
+    without error or panic; those two only panic on hand-built nodes with a child key of
+    fewer than 12 bytes *)
+Theorem C13_decoded_node_writes :
+  forall (nk buf : bytes) (n : raw_node) (c : nat),
+    decode_node_n nk buf = DOk (n, c) ->
+    (exists bz, write_node n = DOk bz) /\ (exists sz, encoded_size n = DOk sz).
+Proof. exact decoded_node_writes. Qed.
+Print Assumptions C13_decoded_node_writes.
 
 Theorem C13_legacy_no_panic :
   forall hash buf : bytes, decode_legacy_node hash buf <> DPanic.
@@ -347,7 +358,9 @@ Example C13_example_former_panics :
   decode_node C13_nk [2; 4; 1; 97; 0; 2; 5; 1; 2; 3; 4; 5; 2; 4]%N = DErr /\
   decode_node (repeat 1%N 20) [0; 2; 1; 97; 1; 98]%N = DErr /\
   decode_node C13_nk [0; 2; 1; 97; 1; 98]%N
-  = DOk (mk_raw_node 0 1 [97%N] (Some [98%N]) [] RefNone RefNone).
+  = DOk (mk_raw_node 0 1 [97%N] (Some [98%N]) [] RefNone RefNone) /\
+  (* legacy node whose left child hash has 5 bytes *)
+  decode_legacy_node (repeat 5%N 32) [2; 4; 2; 1; 97; 5; 1; 2; 3; 4; 5; 0]%N = DErr.
 Proof. vm_compute. repeat split; reflexivity. Qed.
 
 Example C13_example_legacy_fast :
